@@ -18,7 +18,9 @@ add_lp1_term_fwd/bwd, add_lp1_term_onsite_fwd/bwd, add_lp1_onsite_new_fwd/bwd (i
 Python: NLDFAuxiliaryPlan.eval_rho_vj_/eval_vxc_vj_ and eval_rho_vi_/eval_vxc_vi_ through eval_rho_full / eval_vxc_full (engine P, reverse D-spec of a
 linear map = its transpose).
 Not under contract (listed, not claimed): Gaussian convolutions multiply_atc_integrals(_vk), contract_rad_to_orb / orb_to_rad, compute_mol_convs_* /
-compute_pot_convs_*, the interpolation-coefficient transform, LCAOInterpolator's Python chains, SDMX *_grid variants.
+compute_pot_convs_*, the interpolation-coefficient transform, SDMX *_grid variants.
+Python chains of LCAOInterpolator / LCAOInterpolatorDirect (interpolate_fwd/bwd, conv2spline/spline2conv, project_orb2grid/grid2orb): executed on symbolic arrays
+around abstract linear contracts of the C collaborators; bounded in the array shapes.
 """
 import itertools
 import os
@@ -529,8 +531,9 @@ def replay_plan_transform(order):
 def unit_registry(ctx):
     for what in ("contract_rad_to_orb / contract_orb_to_rad: iteration-space equality (only the local kernel / index / guard agreement is under contract, unit rad-orb)",
                  "compute_mol_convs_* / compute_pot_convs_*",
-                 "LCAOInterpolator._interpolate_nopar_atom and the Python forward / backward chains",
-                 "SDMXBasePlan.get_features / get_vxc",
+                 "LCAOInterpolator(Direct) Python chains: under contract only AROUND abstract collaborator matrices and for bounded array shapes (units interp-chain, spline-chain, direct-chain); "
+                 "the gradient chain (_interpolate_nopar_atom_deriv, project_orb2grid_grad) is not",
+                 "SDMXBasePlan.get_features / get_vxc (not a linear pair: the half-derivative contract of the quadratic features is C01 sdmx-plan/*)",
                  "contract_shl_to_alpha_l1 / _bwd (two different collapsed block loops: the bijection needs a div/mod re-indexing the matcher does not find)",
                  "project_conv_to_spline / project_spline_to_conv (loop nests related through the atom <-> shell tables of the C-built struct)"):
         ctx.assume("UNVERIFIED adjoint pair (not claimed): %s" % what)
@@ -797,11 +800,423 @@ def replay_atc_adjoint(fn):
     return replay
 
 
+# ------------------------------------------------------------------ Python chains of LCAOInterpolator(Direct) around abstract linear collaborators
+def _arr_of(p_):
+    from pyvc.npmodel import CPtr
+    return p_.arr if isinstance(p_, CPtr) else p_
+
+
+def _interp_externals(K, XYZlog):
+    """compute_mol_convs_single_new adds K_a c_a to f_gq, compute_pot_convs_single_new overwrites c_a with K_a^T f_gq (one abstract matrix per atom, told apart by the token
+    the overridden _eval_spline_bas_single hands over); add_lp1_term_fwd / _bwd: the in-place row operations of the C source."""
+    log = XYZlog
+    nrad, nlm = K[0].shape[1], K[0].shape[2]
+
+    def atom_of(tokptr):
+        return int(_arr_of(tokptr).reshape(-1)[0])
+
+    def mol_convs(interp, f, c, gl, gp, loc, ordp, nalpha, nrad_, ngrids, nlm_, maxg):
+        f, c, a = _arr_of(f), _arr_of(c), atom_of(gl)
+        log.append(("fwd-kernel", a, int(ngrids)))
+        for g in range(int(ngrids)):
+            for q in range(int(nalpha)):
+                f[g, q] = f[g, q] + tm.mk_add(*[K[a][g, r, l, p_] * c[r, l, p_, q] for r in range(nrad) for l in range(nlm) for p_ in range(4)])
+
+    def pot_convs(interp, f, c, gl, gp, loc, ordp, nalpha, nrad_, ngrids, nlm_, maxg):
+        f, c, a = _arr_of(f), _arr_of(c), atom_of(gl)
+        log.append(("bwd-kernel", a, int(ngrids)))
+        for r in range(nrad):
+            for l in range(nlm):
+                for p_ in range(4):
+                    for q in range(int(nalpha)):
+                        c[r, l, p_, q] = tm.mk_add(*[K[a][g, r, l, p_] * f[g, q] for g in range(int(ngrids))]) if int(ngrids) else tm.ZERO
+
+    def lp1(fwd):
+        def fn(interp, f, coords, ac, n, ig, ix, iy, iz, nf):
+            f, coords, ac = _arr_of(f), _arr_of(coords), _arr_of(ac)
+            log.append(("l1-fwd" if fwd else "l1-bwd", None, int(n)))
+            for g in range(int(n)):
+                dd = [coords[g, k] - ac[k] for k in range(3)]
+                cols = [int(ix), int(iy), int(iz)]
+                if fwd:
+                    for k in range(3):
+                        f[g, cols[k]] = f[g, cols[k]] + dd[k] * f[g, int(ig)]
+                    f[g, int(ig)] = tm.ZERO
+                else:
+                    f[g, int(ig)] = tm.mk_add(*[dd[k] * f[g, cols[k]] for k in range(3)])
+        return fn
+    return {"compute_mol_convs_single_new": mol_convs, "compute_pot_convs_single_new": pot_convs, "add_lp1_term_fwd": lp1(True), "add_lp1_term_bwd": lp1(False)}
+
+
+def _spline_externals(W, G, J, log):
+    """project_conv_to_spline / project_spline_to_conv add W u / W^T s on the column window they are handed (one abstract matrix per (basis, spline table), the tables told
+    apart by their last extent 7 / 9); fill_l1_coeff_fwd / _bwd add G_v u / G_v^T u1 (three abstract matrices)."""
+    def proj(fwd):
+        def fn(interp, fa, fu, w, atco, nalpha, nrad_, nlm_, orb_stride, spline_stride, off_s, off_o):
+            fa, fu, w = _arr_of(fa), _arr_of(fu), _arr_of(w)
+            key = (atco, "w0" if w.shape[-1] == 7 else "wm")
+            M = W[key]
+            log.append(("c2s" if fwd else "s2c", key, int(nalpha), int(off_s), int(off_o), int(orb_stride) == fu.shape[-1], int(spline_stride) == fa.shape[-1]))
+            fs = fa.reshape(J, fa.shape[-1])
+            for k in range(int(nalpha)):
+                for j in range(J):
+                    for u in range(M.shape[1]):
+                        if fwd:
+                            fs[j, int(off_s) + k] = fs[j, int(off_s) + k] + M[j, u] * fu[u, int(off_o) + k]
+                        else:
+                            fu[u, int(off_o) + k] = fu[u, int(off_o) + k] + M[j, u] * fs[j, int(off_s) + k]
+        return fn
+
+    def fill(fwd):
+        def fn(interp, fu, f1, gaunt, nlm_, a0, a1, stride, offset, stride1, offset1):
+            fu, f1 = _arr_of(fu), _arr_of(f1)
+            log.append(("fill-fwd" if fwd else "fill-bwd", (a0, a1), int(offset), int(offset1), int(stride) == fu.shape[1], int(stride1) == f1.shape[1]))
+            for v in range(3):
+                for a in range(G[v].shape[0]):
+                    for b in range(G[v].shape[1]):
+                        if fwd:
+                            f1[a, int(offset1) + v] = f1[a, int(offset1) + v] + G[v][a, b] * fu[b, int(offset)]
+                        else:
+                            fu[b, int(offset)] = fu[b, int(offset)] + G[v][a, b] * f1[a, int(offset1) + v]
+        return fn
+    return {"project_conv_to_spline": proj(True), "project_spline_to_conv": proj(False), "fill_l1_coeff_fwd": fill(True), "fill_l1_coeff_bwd": fill(False)}
+
+
+def _onsite_externals(R, Y, D, nao_of, log):
+    """contract_orb_to_rad adds R u to theta, contract_rad_to_orb adds R^T theta to the orbital columns (one abstract matrix per basis; ADDITIVE as in C10 / rad-orb);
+    reduce_ylm_to_angc overwrites the grid columns with Y theta, reduce_angc_to_ylm overwrites theta with Y^T (grid columns) (dgemm with BETA = 0);
+    add_lp1_onsite_new_fwd / _bwd: the in-place row operations of the C source with an abstract displacement D[g] = rads * dirs per grid point."""
+    def rad_orb(to_orb):
+        def fn(interp, th, p, loc, rads, nrad_, nlm_, atco, nalpha, stride, offset):
+            th, p = _arr_of(th), _arr_of(p)
+            M = R[atco]
+            log.append(("rad2orb" if to_orb else "orb2rad", atco, int(nalpha), int(offset), int(stride) == p.shape[1], th.shape[-1] == int(nalpha)))
+            for r in range(th.shape[0]):
+                for lm in range(th.shape[1]):
+                    for k in range(int(nalpha)):
+                        for u in range(M.shape[2]):
+                            if to_orb:
+                                p[u, int(offset) + k] = p[u, int(offset) + k] + M[r, lm, u] * th[r, lm, k]
+                            else:
+                                th[r, lm, k] = th[r, lm, k] + M[r, lm, u] * p[u, int(offset) + k]
+        return fn
+
+    def reduce_(a2y):
+        def fn(interp, th, ylm, gq, rad_loc, ylm_loc, nalpha, nrad_, ngrids, nlm_, stride, offset):
+            th, gq = _arr_of(th), _arr_of(gq)
+            log.append(("angc2ylm" if a2y else "ylm2angc", None, int(nalpha), int(offset), int(stride) == gq.shape[1], int(ngrids) == gq.shape[0]))
+            if a2y:
+                for r in range(th.shape[0]):
+                    for lm in range(th.shape[1]):
+                        for k in range(int(nalpha)):
+                            th[r, lm, k] = tm.mk_add(*[Y[g, r, lm] * gq[g, int(offset) + k] for g in range(gq.shape[0])])
+            else:
+                for g in range(gq.shape[0]):
+                    for k in range(int(nalpha)):
+                        gq[g, int(offset) + k] = tm.mk_add(*[Y[g, r, lm] * th[r, lm, k] for r in range(th.shape[0]) for lm in range(th.shape[1])])
+        return fn
+
+    def lp1(fwd):
+        def fn(interp, f, rads, rad_loc, nrad_, dirs, dir_loc, nf, ig, ix, iy, iz):
+            f = _arr_of(f)
+            log.append(("onsite-l1-fwd" if fwd else "onsite-l1-bwd", None, int(ig), int(ix), int(nf) == f.shape[1], True))
+            cols = [int(ix), int(iy), int(iz)]
+            for g in range(f.shape[0]):
+                if fwd:
+                    for k in range(3):
+                        f[g, cols[k]] = f[g, cols[k]] + D[g, k] * f[g, int(ig)]
+                    f[g, int(ig)] = tm.ZERO
+                else:
+                    f[g, int(ig)] = tm.mk_add(*[D[g, k] * f[g, cols[k]] for k in range(3)])
+        return fn
+    return {"contract_rad_to_orb": rad_orb(True), "contract_orb_to_rad": rad_orb(False), "reduce_angc_to_ylm": reduce_(True), "reduce_ylm_to_angc": reduce_(False),
+            "add_lp1_onsite_new_fwd": lp1(True), "add_lp1_onsite_new_bwd": lp1(False), "get_atco_nao": lambda interp, ptr: nao_of[ptr], "get_atco_natm": lambda interp, ptr: 2}
+
+
+INTERP_MOD = "ciderpress.dft.lcao_interpolation"
+
+
+def _install(it, libnames, ext):
+    for ln in libnames:
+        for k_, v_ in ext.items():
+            it.externals["%s.%s" % (ln, k_)] = v_
+
+
+def _uninstall(it, libnames, ext):
+    for ln in libnames:
+        for k_ in ext:
+            it.externals.pop("%s.%s" % (ln, k_), None)
+
+
+def unit_interp_chain(onsite):
+    """LCAOInterpolator.interpolate_fwd / interpolate_bwd (the Python chain around the spline kernels): the backward pass is the transpose of the forward pass.
+    The real methods are executed (loop over atoms, order of the l=1 helper and the spline kernel, which buffers they hand over) with the four C routines replaced
+    by their contracts (_interp_externals; the spline kernel pair is an assumed contract, the l=1 pair is inplace/add_lp1_term_fwd).
+    Obligation:  sum_gq F(c)[g,q] w[g,q]  ==  sum_arlpq c[a,r,l,p,q] B(w)[a,r,l,p,q]  for symbolic c, w."""
+    def run(ctx):
+        from pyvc.interp import Obj, Unsupported, PyRaise, ClassV
+        from contracts.common import sym_array
+        LM = INTERP_MOD
+        it = ctx.interp
+        mod = it.load_module(LM)
+        libs = [mod.ns["libcider"].name]
+        natm, ng, nrad, nlm, n0, n1 = 2, 2, 1, 1, 1, 1
+        nq = n0 + 4 * n1
+        K = [sym_array("K%d" % a, (ng, nrad, nlm, 4)) for a in range(natm)]
+        log = []
+        ext = _interp_externals(K, log)
+        _install(it, libs, ext)
+        # the per-atom spline basis: a token carrying the atom index (the abstract K_a stands for what compute_spline_bas_separate + the index order produce)
+        it.overrides[LM + ":LCAOInterpolator._eval_spline_bas_single"] = lambda interp, f, args, kwargs: (np.array([args[1]], dtype=object), np.array([args[1]], dtype=object))
+        fq = [LM + ":LCAOInterpolator." + n for n in ("interpolate_fwd", "interpolate_bwd", "_interpolate_nopar_atom", "_call_l1_fill", "num_out")]
+        ctx.assume("assumed contract: compute_mol_convs_single_new / compute_pot_convs_single_new act as K_a and K_a^T of one matrix per atom (built from the spline basis and the "
+                   "radial index order); the in-place l=1 row operations are those of the C source (their transposition is inplace/add_lp1_term_fwd)")
+        ctx.assume("bounded shape: natm = %d, %d grid points, one l=1 feature, one l=0 feature; the loops over atoms and l=1 features are executed, not summarised" % (natm, ng))
+        try:
+            mk = lambda name, **f: (lambda x: (x.fields.update(f), x)[1])(Obj(ClassV(name, [], mod)))
+            o = Obj(mod.ns["LCAOInterpolator"])
+            ga = np.array([0, 1, ng]) if onsite else np.array([0, 0, 0])
+            o.fields.update({"_n0": n0, "_n1": n1, "all_coords": sym_array("xyz", (ng, 3)), "atom_coords": sym_array("R", (natm, 3)), "atco": mk("_ATCO", natm=natm), "is_num_ai_setup": True,
+                             "onsite_direct": onsite, "_loc_ai": [np.array([0, ng]) for _ in range(natm)], "_ga_loc": ga, "_ind_ord_fwd": np.arange(ng), "_nrad": nrad, "nlm": nlm, "_maxg": ng})
+            tag = "LCAOInterpolator[onsite_direct=%s]" % onsite
+            c = sym_array("c", (natm, nrad, nlm, 4, nq))
+            w = sym_array("w", (ng, nq))
+            it.hyps = []
+            del log[:]
+            F = np.asarray(it.call_method(o, "interpolate_fwd", [c.copy()]), dtype=object)
+            order_f = [x[0] for x in log]
+            del log[:]
+            B = np.asarray(it.call_method(o, "interpolate_bwd", [w.copy()]), dtype=object)
+            order_b = [x[0] for x in log]
+        except (Unsupported, PyRaise) as e:
+            ctx.undecided("interpolator chain runs", str(e)[:300], fq)
+            return
+        finally:
+            _uninstall(it, libs, ext)
+            it.overrides.pop(LM + ":LCAOInterpolator._eval_spline_bas_single", None)
+        ctx.holds("%s: forward and backward passes each call one spline kernel and one l=1 helper per atom" % tag,
+                  sorted(order_f) == sorted(["fwd-kernel", "l1-fwd"] * natm) and sorted(order_b) == sorted(["bwd-kernel", "l1-bwd"] * natm), "%s / %s" % (order_f, order_b), fq)
+        lhs = tm.mk_add(*[tm.lift(F[g, q]) * w[g, q] for g in range(ng) for q in range(nq)])
+        rhs = tm.mk_add(*[tm.lift(B[idx]) * c[idx] for idx in np.ndindex(*c.shape)])
+        ctx.equal("%s: <interpolate_fwd(c), w> = <c, interpolate_bwd(w)> for every c, w, spline matrix and geometry" % tag, [], lhs, rhs, fq, replay=replay_interp_chain(onsite))
+        ig = nq - 1
+        ctx.holds("%s: the forward result has an empty scratch column (ig) and does not depend on uninitialised memory" % tag,
+                  all(tm.lift(F[g, ig]) is tm.ZERO for g in range(ng)) and not any(u.args[0].startswith("uninit!") for x in F.reshape(-1) for u in tm.free_vars(tm.lift(x))), "", fq)
+        ctx.canary("%s canary (backward pass scaled by 2)" % tag, [], lhs, 2 * rhs)
+    return run
+
+
+def replay_interp_chain(onsite_):
+    def replay(wit):
+        """Native: the real _interpolate_nopar_atom / _call_l1_fill of an LCAOInterpolator (no constructor), real add_lp1_term_fwd/_bwd from the library built from the
+        tree, the two spline kernels replaced by numpy K_a / K_a^T of random matrices (the assumed contract); reports the adjoint defect."""
+        from pyvc import native
+        native.install_shim()
+        import ctypes
+        import ciderpress.dft.lcao_interpolation as L
+        rs = np.random.RandomState(11)
+        natm, ng, nrad, nlm, n0, n1 = 2, 7, 2, 4, 2, 2
+        nq = n0 + 4 * n1
+        onsite = bool(onsite_)
+        Ks = [rs.randn(ng, nrad * nlm * 4) for _ in range(natm)]
+        real = L.libcider
+        state = {"a": 0}
+
+        def as_arr(p_, shape):
+            return np.ctypeslib.as_array(ctypes.cast(p_, ctypes.POINTER(ctypes.c_double)), shape=shape)
+
+        class Lib(object):
+            def __getattr__(self, name):
+                if name == "compute_mol_convs_single_new":
+                    def f(fp, cp, gl, gp, loc, ordp, nalpha, nrad_, ngrids, nlm_, maxg):
+                        a = state["a"]
+                        F_, C_ = as_arr(fp, (ng, nq)), as_arr(cp, (nrad * nlm * 4, nq))
+                        F_[:ngrids.value] += Ks[a][:ngrids.value] @ C_
+                    return f
+                if name == "compute_pot_convs_single_new":
+                    def f(fp, cp, gl, gp, loc, ordp, nalpha, nrad_, ngrids, nlm_, maxg):
+                        a = state["a"]
+                        F_, C_ = as_arr(fp, (ng, nq)), as_arr(cp, (nrad * nlm * 4, nq))
+                        C_[:] = Ks[a][:ngrids.value].T @ F_[:ngrids.value]
+                    return f
+                return getattr(real, name)
+
+        class I(L.LCAOInterpolator):
+            def __init__(self):
+                pass
+
+            def _eval_spline_bas_single(self, a):
+                state["a"] = a
+                return np.zeros(1), np.zeros(1)
+
+        class A(object):
+            pass
+        o = I()
+        o._n0, o._n1, o.is_num_ai_setup, o.onsite_direct = n0, n1, True, onsite
+        o.all_coords = np.ascontiguousarray(rs.randn(ng, 3))
+        o.atom_coords = np.ascontiguousarray(rs.randn(natm, 3))
+        o.atco = A()
+        o.atco.natm = natm
+        o._loc_ai = [np.zeros(2, dtype=np.int32)] * natm
+        o._ga_loc = np.array([0, 3, ng]) if onsite else np.zeros(natm + 1, dtype=int)
+        o._ind_ord_fwd = np.arange(ng, dtype=np.int32)
+        o._nrad, o.nlm, o._maxg = nrad, nlm, ng
+        L.libcider = Lib()
+        try:
+            c = rs.randn(natm, nrad, nlm, 4, nq)
+            w = rs.randn(ng, nq)
+            F_ = o.interpolate_fwd(c.copy())
+            B_ = o.interpolate_bwd(w.copy())
+        finally:
+            L.libcider = real
+        lhs, rhs = float((F_ * w).sum()), float((B_ * c).sum())
+        return {"reproduced": bool(abs(lhs - rhs) > 1e-9 * max(1.0, abs(lhs))), "<F(c),w>": lhs, "<c,B(w)>": rhs, "onsite_direct": onsite}
+    return replay
+
+
+def unit_spline_chain(n0, n1):
+    """LCAOInterpolator.conv2spline / spline2conv (orbital basis <-> spline coefficients, with the l=1 coefficient fill): the backward chain is the transpose of the
+    forward chain.  The real methods run (column offsets, strides, the temporary f1_uq, order of the fill) around the contracts of _spline_externals."""
+    def run(ctx):
+        from pyvc.interp import Obj, Unsupported, PyRaise, ClassV
+        from contracts.common import sym_array
+        LM = INTERP_MOD
+        it = ctx.interp
+        mod = it.load_module(LM)
+        libs = [mod.ns["libcider"].name]
+        natm, nrad, nlm, nao0, nao1 = 1, 1, 1, 2, 3
+        nin, nout = n0 + 2 * n1, n0 + 4 * n1
+        J = natm * nrad * nlm * 4
+        W = {("atco0", "w0"): sym_array("W0", (J, nao0)), ("atco1", "wm"): sym_array("Wm", (J, nao1))}
+        G = [sym_array("G%d" % v, (nao1, nao0)) for v in range(3)]
+        log = []
+        ext = _spline_externals(W, G, J, log)
+        _install(it, libs, ext)
+        fq = [LM + ":LCAOInterpolator." + n for n in ("conv2spline", "spline2conv", "_orb2spline_", "_fill_l1_coeff_", "num_in", "num_out")]
+        tag = "LCAOInterpolator[n0=%d,n1=%d]" % (n0, n1)
+        ctx.assume("assumed contracts: project_conv_to_spline / project_spline_to_conv add W u / W^T s on the column window (offset, nalpha) of rows of the given strides; "
+                   "fill_l1_coeff_fwd / _bwd add G_v u / G_v^T u1 (pair/fill_l1_coeff_fwd, registry: spline projection pair UNVERIFIED at C level)")
+        ctx.assume("bounded shape: one atom, one radial knot, nlm = 1, %d / %d orbitals in the two bases; n0 = %d, n1 = %d" % (nao0, nao1, n0, n1))
+        try:
+            mk = lambda name, **f: (lambda x: (x.fields.update(f), x)[1])(Obj(ClassV(name, [], mod)))
+            o = Obj(mod.ns["LCAOInterpolator"])
+            o.fields.update({"_n0": n0, "_n1": n1, "atco": mk("_ATCO", natm=natm, nao=nao0, atco_c_ptr="atco0"), "l1atco": mk("_ATCO1", natm=natm, nao=nao1, atco_c_ptr="atco1"),
+                             "_nrad": nrad, "nlm": nlm, "w0_rsp": sym_array("w0", (nrad, 7)), "wm_rsp": sym_array("wm", (nrad, 9)), "_gaunt_coeff": sym_array("gc", (5, nlm))})
+            u = sym_array("u", (nao0, nin))
+            sp = sym_array("s", (natm, nrad, nlm, 4, nout))
+            it.hyps = []
+            del log[:]
+            u_in = u.copy()
+            F = np.asarray(it.call_method(o, "conv2spline", [u_in]), dtype=object)
+            lf = list(log)
+            del log[:]
+            s_in = sp.copy()
+            B = np.asarray(it.call_method(o, "spline2conv", [s_in]), dtype=object)
+            lb = list(log)
+        except (Unsupported, PyRaise) as e:
+            ctx.undecided("spline chain runs", str(e)[:300], fq)
+            return
+        finally:
+            _uninstall(it, libs, ext)
+        ctx.holds("%s: every C call receives the row lengths of the arrays it is handed" % tag, all(all(x[-2:]) for x in lf + lb), "%s" % [x for x in lf + lb if not all(x[-2:])][:2], fq)
+        ctx.holds("%s: conv2spline does not write its input, spline2conv does not write its input" % tag,
+                  all(tm.lift(a) is tm.lift(b) for a, b in zip(u_in.reshape(-1), u.reshape(-1))) and all(tm.lift(a) is tm.lift(b) for a, b in zip(s_in.reshape(-1), sp.reshape(-1))), "", fq)
+        lhs = tm.mk_add(*[tm.lift(F[idx]) * sp[idx] for idx in np.ndindex(*sp.shape)])
+        rhs = tm.mk_add(*[tm.lift(B[idx]) * u[idx] for idx in np.ndindex(*u.shape)])
+        ctx.equal("%s: <conv2spline(u), s> = <u, spline2conv(s)> for every u, s and every projection / fill matrix" % tag, [], lhs, rhs, fq)
+        ctx.canary("%s canary (backward chain scaled by 2)" % tag, [], lhs, 2 * rhs)
+    return run
+
+
+def unit_direct_chain(n0, n1, onsite):
+    """LCAOInterpolatorDirect.project_orb2grid / project_grid2orb — the projections LCAONLDFGenerator calls between the convolutions and the grid: the whole Python chain
+    (onsite radial path with its temporaries and index map, l=1 onsite step, orbital -> spline conversion with the l=1 fill, spline interpolation with the l=1 step per atom,
+    padding rows) is executed on symbolic arrays around the contracts of the C routines (_onsite_externals, _spline_externals, _interp_externals).
+    Obligation:  <project_orb2grid(u), w> = <u, project_grid2orb(w)>  for symbolic u, w and every collaborator matrix."""
+    def run(ctx):
+        from pyvc.interp import Obj, Unsupported, PyRaise, ClassV
+        from contracts.common import sym_array
+        LM, CM, GM = INTERP_MOD, "ciderpress.dft.lcao_convolutions", "ciderpress.dft.grids_indexer"
+        it = ctx.interp
+        mod, cmod, gmod = it.load_module(LM), it.load_module(CM), it.load_module(GM)
+        libs = sorted({m.ns["libcider"].name for m in (mod, cmod, gmod)})
+        natm, ng, nrad, nlm, nao0, nao1 = 2, 2, 1, 1, 2, 3
+        nrg, nlmg, pad = 2, 1, 1
+        nin, nout = n0 + 2 * n1, n0 + 4 * n1
+        J = natm * nrad * nlm * 4
+        K = [sym_array("K%d" % a, (ng, nrad, nlm, 4)) for a in range(natm)]
+        W = {("atco0", "w0"): sym_array("W0", (J, nao0)), ("atco1", "wm"): sym_array("Wm", (J, nao1))}
+        G = [sym_array("G%d" % v, (nao1, nao0)) for v in range(3)]
+        R = {"atco0": sym_array("R0", (nrg, nlmg, nao0)), "atco1": sym_array("R1", (nrg, nlmg, nao1))}
+        Y = sym_array("Y", (ng, nrg, nlmg))
+        D = sym_array("D", (ng, 3))
+        log = []
+        ext = {}
+        ext.update(_interp_externals(K, log))
+        ext.update(_spline_externals(W, G, J, log))
+        ext.update(_onsite_externals(R, Y, D, {"atco0": nao0, "atco1": nao1}, log))
+        _install(it, libs, ext)
+        it.overrides[LM + ":LCAOInterpolator._eval_spline_bas_single"] = lambda interp, f, args, kwargs: (np.array([args[1]], dtype=object), np.array([args[1]], dtype=object))
+        fq = [LM + ":LCAOInterpolatorDirect." + n for n in ("project_orb2grid", "project_grid2orb", "_run_onsite_orb2grid", "_run_onsite_lp1")] + \
+             [LM + ":LCAOInterpolator." + n for n in ("conv2spline", "spline2conv", "interpolate_fwd", "interpolate_bwd", "_interpolate_nopar_atom", "_call_l1_fill")] + \
+             [CM + ":ATCBasis.convert_rad2orb_", GM + ":AtomicGridsIndexer.reduce_angc_ylm_", GM + ":AtomicGridsIndexer.empty_rlmq"]
+        tag = "LCAOInterpolatorDirect[n0=%d,n1=%d,onsite_direct=%s]" % (n0, n1, onsite)
+        ctx.assume("assumed contracts of the C collaborators: one abstract matrix per routine pair (forward = M, backward = M^T; accumulate / overwrite as in the C sources); "
+                   "the C-level transpositions are pair/*, inplace/* and rad-orb of this property, the spline kernel and spline projection pairs are UNVERIFIED at C level")
+        ctx.assume("bounded shape: %d atoms, %d grid points (+%d padding row), %d radial shells on the atomic grids, n0 = %d, n1 = %d; loops are executed, not summarised" % (natm, ng, pad, nrg, n0, n1))
+        try:
+            gi = Obj(gmod.ns["AtomicGridsIndexer"])
+            gi.fields.update({"nrad": nrg, "nlm": nlmg, "all_weights": sym_array("wt", (ng,)), "ylm": sym_array("ylm", (2, nlmg)), "rad_loc": np.array([0, 1, ng], dtype=np.int32),
+                              "ylm_loc": np.array([0, 1], dtype=np.int32), "rad_arr": sym_array("rad", (nrg,)), "ra_loc": np.array([0, 1, nrg], dtype=np.int32),
+                              "ar_loc": np.array([0, 1], dtype=np.int32), "idx_map": np.array([1, 0]), "padding": pad, "iatom_list": np.array([0, 1], dtype=np.int32),
+                              "dirs": sym_array("dirs", (2, 3))})
+            mka = lambda ptr: (lambda x: (x.fields.update({"_atco": ptr, "natm": natm}), x)[1])(Obj(cmod.ns["ATCBasis"]))
+            o = Obj(mod.ns["LCAOInterpolatorDirect"])
+            o.fields.update({"_n0": n0, "_n1": n1, "all_coords": sym_array("xyz", (ng, 3)), "atom_coords": sym_array("Ra", (natm, 3)), "atco": mka("atco0"), "l1atco": mka("atco1"),
+                             "is_num_ai_setup": True, "onsite_direct": onsite, "_loc_ai": [np.array([0, ng]) for _ in range(natm)], "_ga_loc": np.array([0, 1, ng]) if onsite else np.array([0, 0, 0]),
+                             "_ind_ord_fwd": np.arange(ng), "_nrad": nrad, "nlm": nlm, "_maxg": ng, "grids_indexer": gi,
+                             "w0_rsp": sym_array("w0", (nrad, 7)), "wm_rsp": sym_array("wm", (nrad, 9)), "_gaunt_coeff": sym_array("gc", (5, nlm))})
+            u = sym_array("u", (nao0, nin))
+            w = sym_array("w", (ng + pad, nout))
+            it.hyps = []
+            del log[:]
+            u_in = u.copy()
+            F = np.asarray(it.call_method(o, "project_orb2grid", [u_in]), dtype=object)
+            lf = list(log)
+            del log[:]
+            w_in = w.copy()
+            B = np.asarray(it.call_method(o, "project_grid2orb", [w_in]), dtype=object)
+            lb = list(log)
+        except (Unsupported, PyRaise) as e:
+            ctx.undecided("%s chain runs" % tag, str(e)[:300], fq)
+            return
+        finally:
+            _uninstall(it, libs, ext)
+            it.overrides.pop(LM + ":LCAOInterpolator._eval_spline_bas_single", None)
+        ctx.holds("%s: the two projections run and return arrays of the grid / orbital shapes" % tag, F.shape == (ng + pad, nout) and B.shape == (nao0, nin), "%s %s" % (F.shape, B.shape), fq)
+        bad = [x for x in lf + lb if x[0] in ("c2s", "s2c", "fill-fwd", "fill-bwd", "rad2orb", "orb2rad", "angc2ylm", "ylm2angc", "onsite-l1-fwd", "onsite-l1-bwd") and not all(x[-2:])]
+        ctx.holds("%s: every C call receives the row lengths / extents of the arrays it is handed" % tag, not bad, "%s" % bad[:2], fq)
+        ctx.holds("%s: project_orb2grid does not write its input; neither projection depends on uninitialised memory" % tag,
+                  all(tm.lift(a) is tm.lift(b) for a, b in zip(u_in.reshape(-1), u.reshape(-1)))
+                  and not any(v_.args[0].startswith("uninit!") for x in list(F.reshape(-1)) + list(B.reshape(-1)) for v_ in tm.free_vars(tm.lift(x))), "", fq)
+        lhs = tm.mk_add(*[tm.lift(F[idx]) * w[idx] for idx in np.ndindex(*w.shape)])
+        rhs = tm.mk_add(*[tm.lift(B[idx]) * u[idx] for idx in np.ndindex(*u.shape)])
+        ctx.equal("%s: <project_orb2grid(u), w> = <u, project_grid2orb(w)> for every u, w and every collaborator matrix" % tag, [], lhs, rhs, fq)
+        ctx.canary("%s canary (backward projection scaled by 2)" % tag, [], lhs, 2 * rhs)
+    return run
+
+
 def units():
     u = [("registry", unit_registry)]
     for fn in ("multiply_atc_integrals", "multiply_atc_integrals_vk"):
         u.append(("atc-adjoint/" + fn, unit_atc_adjoint(fn)))
     u.append(("rad2orb-wrapper", unit_rad2orb_wrapper))
+    for onsite in (False, True):
+        u.append(("interp-chain/onsite_%s" % onsite, unit_interp_chain(onsite)))
+    for n0, n1 in ((1, 1), (2, 0), (0, 2)):
+        u.append(("spline-chain/n0_%d_n1_%d" % (n0, n1), unit_spline_chain(n0, n1)))
+    for n0, n1, onsite in ((1, 1, True), (1, 1, False), (1, 0, True)):
+        u.append(("direct-chain/n0_%d_n1_%d_onsite_%s" % (n0, n1, onsite), unit_direct_chain(n0, n1, onsite)))
     for P in PAIRS:
         u.append(("pair/%s" % P["fwd"], unit_pair(P)))
     for fwd, bwd, tabs in INPLACE:
@@ -824,7 +1239,8 @@ EXPLANATION = (
 TRUSTED = [
     "A5 C: int mathematical in index arithmetic, double real, distinct pointer parameters do not alias; dgemm_ by its reference-BLAS contract",
     "location tables (rad_loc, rf_loc, ao_loc, atom_loc_ao) monotone; struct invariants of atc_basis_set assumed",
-    "pairs listed as UNVERIFIED in the evidence are not claimed (Gaussian convolutions, rad<->orb contractions, interpolation transform, Python chains)",
+    "pairs listed as UNVERIFIED in the evidence are not claimed (rad<->orb contraction iteration spaces, spline kernels, interpolation transform, spline projection pair)",
+    "bounded: the LCAOInterpolator(Direct) Python chains are executed for fixed small array shapes (2 atoms, 2 grid points, n0, n1 <= 2) with every matrix entry symbolic; their C collaborators enter by assumed linear contracts (M / M^T)",
 ]
 
 if __name__ == "__main__":
